@@ -390,7 +390,7 @@ func vhC12Load(a []int, twin bool) {
 }
 
 // vh_C12_roundtrip: Dump then LoadMetadata gives back equal metadata with the same signatures.
-// a = {wrapper, shape of the collections (0 nil, 1 empty, 2 populated)}
+// a = {wrapper, shape of the collections (0 nil, 1 empty, 2 populated, 3 populated with the wrappers' own member names)}
 func vh_C12_roundtrip(a []int) {
 	dsse := a[0] == 1
 	// concrete strings chosen by case split (signatures over symbolic bytes cannot be hex/base64 round-tripped in the engine)
@@ -407,6 +407,13 @@ func vh_C12_roundtrip(a []int) {
 		l.Command = []string{"sh", "-c", name}
 		l.ByProducts = map[string]interface{}{"return-value": float64(2), "stdout": name, "stderr": ""}
 		l.Environment = map[string]interface{}{"workdir": "/tmp"}
+	case 3:
+		// the link's own content uses the member names of the two wrappers
+		l.Materials = map[string]HashObj{"payloadType": {"sha256": "ab"}, "signed": {"sha256": "cd"}}
+		l.Products = map[string]HashObj{"payload": {"sha256": "ef"}, "signatures": {}}
+		l.Command = []string{"echo", "\"payloadType\"", "payloadType"}
+		l.ByProducts = map[string]interface{}{"payloadType": "application/vnd.in-toto+json", "payload": name, "_type": "layout"}
+		l.Environment = map[string]interface{}{"payloadType": "x", "signatures": []interface{}{}, "signed": map[string]interface{}{"_type": "layout"}}
 	}
 	md := vhNewWrapper(dsse, l)
 	if err := md.Sign(vhEdKey(0, true)); err != nil {
@@ -429,4 +436,53 @@ func vh_C12_roundtrip(a []int) {
 		vAssert("C12.roundtrip-still-verifies", back.VerifySignature(vhEdKey(0, false)) == nil)
 	}
 	vReach("C12.end")
+}
+
+// vh_C04_roundtrip_layout / vh_C12_roundtrip_layout: a signed layout with legal but unusual content - repeated
+// and unsorted list entries, padded strings, trailing separators, upper-case hexadecimal, empty lists - verifies
+// in memory, and after Dump and LoadMetadata it is the same metadata (nothing normalised away) and still verifies.
+// a = {wrapper, variant of the odd content}
+func vh_C04_roundtrip_layout(a []int) {
+	dsse := a[0] == 1
+	kid := vhEdIDs[0]
+	l := Layout{Type: "layout", Expires: "2030-01-01T00:00:00Z", Readme: "  padded readme \n", Keys: map[string]Key{}, Steps: []Step{}, Inspect: []Inspection{}}
+	st := Step{Type: "step", Threshold: 1, SupplyChainItem: SupplyChainItem{Name: "build", ExpectedMaterials: [][]string{}, ExpectedProducts: [][]string{}}, ExpectedCommand: []string{}, PubKeys: []string{}}
+	switch a[1] {
+	case 0:
+		st.PubKeys = []string{kid, "ffee", kid} // a key id listed twice
+	case 1:
+		st.PubKeys = []string{"ffee", "00aa", "AB12"} // unsorted, upper-case hexadecimal
+		st.ExpectedCommand = []string{"make", "", " all ", "make"}
+	case 2:
+		st.ExpectedMaterials = [][]string{{"ALLOW", "src/"}, {"ALLOW", "src/"}, {"match", "./a//b", "with", "products", "from", "build"}}
+		st.ExpectedProducts = [][]string{{"DISALLOW", "*"}, {"ALLOW", "*"}}
+	case 3:
+		st.CertificateConstraints = []CertificateConstraint{{CommonName: " cn ", DNSNames: []string{"B.example", "a.example", "B.example"}, Emails: []string{}, Organizations: []string{""}, Roots: []string{"*", "*"}, URIs: []string{"spiffe://x/", "spiffe://x"}}}
+	}
+	l.Steps = append(l.Steps, st)
+	l.Inspect = append(l.Inspect, Inspection{Type: "inspection", Run: []string{"sh", "-c", "true ", ""}, SupplyChainItem: SupplyChainItem{Name: "check", ExpectedMaterials: [][]string{}, ExpectedProducts: [][]string{}}})
+	md := vhNewWrapper(dsse, l)
+	if err := md.Sign(vhEdKey(0, true)); err != nil {
+		vFail("sign failed")
+	}
+	vAssert("C04.signed-layout-verifies-in-memory", md.VerifySignature(vhEdKey(0, false)) == nil)
+	vhFiles = map[string][]byte{}
+	derr := md.Dump("odd.layout")
+	back, lerr := LoadMetadata("odd.layout")
+	vObserve("roundtrip-layout", derr == nil, lerr == nil)
+	vAssert("C04.dump-and-load-back-succeed", derr == nil && lerr == nil)
+	if derr == nil && lerr == nil {
+		bl, isLayout := back.GetPayload().(Layout)
+		vAssert("C12.roundtrip-equal-metadata", isLayout && vspecCanonLayout(bl) == vspecCanonLayout(l))
+		vAssert("C04.loaded-layout-still-verifies", back.VerifySignature(vhEdKey(0, false)) == nil)
+		vAssert("C04.loaded-layout-does-not-verify-under-another-key", back.VerifySignature(vhEdKey(1, false)) != nil)
+	}
+	vReach("C04.end")
+}
+
+func vh_C12_roundtrip_layout(a []int) { vh_C04_roundtrip_layout(a) }
+
+func init() {
+	vhRegister("vh_C04_roundtrip_layout", vh_C04_roundtrip_layout)
+	vhRegister("vh_C12_roundtrip_layout", vh_C12_roundtrip_layout)
 }
